@@ -716,7 +716,11 @@ func judgeDigestContract(rec *ev.Rec, ml, cl int, eseed int64) bool {
 				keys[i], msgs[i], sigs[i] = pub, good, gsig
 			}
 			if wrong {
-				msgs[pos], sigs[pos] = msg, make([]byte, 64)
+				// the strongest wrong-length entry: a signature that is valid for the
+				// raw message under the non-prehashed variant with the same context
+				ov := ref.Variant{Pure: cl == 0, Ctx: []byte(o.Context)}
+				_, osig := ref.Sign(seed, msg, ov)
+				msgs[pos], sigs[pos] = msg, osig
 			} else {
 				msgs[pos], sigs[pos] = msg, sig
 			}
